@@ -205,6 +205,21 @@ def proof_leg(prop: str):
     return info
 
 
+def coqchk_leg(prop: str, timeout=2400):
+    """independent re-check of the property's compiled closure with coqchk (thorough tier)"""
+    try:
+        r = subprocess.run(["coqchk", "-silent", "-o", "-Q", "theories", "ArchSim", f"ArchSim.Props.{prop}"],
+                           cwd=str(COQ_DIR), capture_output=True, text=True, timeout=timeout)
+        out = (r.stdout + r.stderr)
+        tail = out[-1500:]
+        ok = r.returncode == 0 and "Axioms: <none>" in out.replace("\n", " ")
+        return {"ran": True, "ok": ok, "exit": r.returncode, "summary": tail}
+    except subprocess.TimeoutExpired:
+        return {"ran": True, "ok": False, "exit": None, "summary": "coqchk timed out"}
+    except FileNotFoundError:
+        return {"ran": False, "ok": True, "summary": "coqchk not installed"}
+
+
 # --------------------------------------------------------------------------- verdicts
 
 def load_known():
